@@ -8,7 +8,7 @@ use fn_graph::{Edge, FnGraph, FnGraphBuilder, FnId};
 use crate::payload::{Fun, MAX_TYPES};
 
 /// Largest batch length supported for `LB` / `CB` (the Rust API takes const-generic arrays).
-pub const MAX_BATCH: usize = 4;
+pub const MAX_BATCH: usize = 8;
 
 #[derive(Clone, Debug, PartialEq, Eq)]
 pub enum Op {
@@ -165,6 +165,9 @@ fn parse_type_list(s: &str) -> Result<Vec<usize>, String> {
 }
 
 fn parse_pairs(s: &str) -> Result<Vec<(usize, usize)>, String> {
+    if s.is_empty() {
+        return Ok(Vec::new()); // the empty batch `add_*_edges([])`
+    }
     let pairs = s
         .split(',')
         .map(|p| {
@@ -174,9 +177,9 @@ fn parse_pairs(s: &str) -> Result<Vec<(usize, usize)>, String> {
             Ok((parse_usize(a, "node index")?, parse_usize(b, "node index")?))
         })
         .collect::<Result<Vec<_>, String>>()?;
-    if pairs.is_empty() || pairs.len() > MAX_BATCH {
+    if pairs.len() > MAX_BATCH {
         return Err(format!(
-            "batch length {} unsupported (1..={MAX_BATCH})",
+            "batch length {} unsupported (0..={MAX_BATCH})",
             pairs.len()
         ));
     }
@@ -320,10 +323,15 @@ fn apply_batch(builder: &mut FnGraphBuilder<Fun>, pairs: &[(usize, usize)], cont
         }};
     }
     match v.len() {
+        0 => go!(0),
         1 => go!(1),
         2 => go!(2),
         3 => go!(3),
         4 => go!(4),
+        5 => go!(5),
+        6 => go!(6),
+        7 => go!(7),
+        8 => go!(8),
         n => panic!("harness: unsupported batch length {n}"),
     }
 }
